@@ -261,6 +261,34 @@ func runV1Corpus(r *core.Run) {
 		t.close()
 		r.Check(okImp && sameMap(want, got), "v1-identity-all", fmt.Sprintf("v1 export all / import: target differs: want %v got %v", want, got))
 	}
+	// every kind of key file, each rotated: export all -> import -> every file has the same logical content
+	// (rotated PUBLIC keys are not readable through the key store API: judged file by file)
+	{
+		s := newV1Store(string(v1Src))
+		for k := 0; k < 2; k++ {
+			must(s.ks.GenerateDataEncryptionKeys([]byte("client_a")))
+			must(s.ks.GenerateClientIDSymmetricKey([]byte("client_a")))
+			must(s.ks.GenerateHmacKey([]byte("client_a")))
+			must(s.ks.GeneratePoisonKeyPair())
+			must(s.ks.GeneratePoisonSymmetricKey())
+			must(s.ks.GenerateLogKey())
+		}
+		fs := readAll(s.dir)
+		s.close()
+		r.Begin("v1:corpus:identity-rotated-everything", true, "stream:v1-corpus")
+		kinds := map[string]bool{}
+		for _, f := range fs {
+			kinds[v1KindOf(string(f.name)).String()] = true
+		}
+		r.Extra["v1_identity_kinds_in_corpus"] = len(kinds)
+		out := r.Do(exportLine(v1Src, fs, "mode all"))
+		if recs, ok := parseRecords(out); r.Check(ok, "v1-export-all-fails", fmt.Sprintf("v1 export of all keys fails for a key store with files %v", names(fs))) {
+			okImp, tfs := runV1Import(v1Tgt, nil, recs)
+			r.Do(importLine(v1Tgt, nil, recs, tfs))
+			r.Check(okImp, "v1-import-fails", "import of an honest bundle of all keys fails")
+			checkV1ImportIdentity(r, v1Src, v1Tgt, fs, recs, tfs)
+		}
+	}
 	// repaired by repo-patches/46: migration of the poison symmetric key
 	{
 		s := newV1Store(string(v1Src))
@@ -378,6 +406,9 @@ func runV1Model(r *core.Run) {
 			t.close()
 			r.Check(okImp && sameMap(want, got), "v1-identity-all", fmt.Sprintf("v1 export all / import: target differs from source (import ok: %v): want %v got %v", okImp, want, got))
 			r.Check(sameNames(fs, tfs), "v1-identity-files", fmt.Sprintf("v1 export all / import: file sets differ: %v vs %v", names(fs), names(tfs)))
+			if okImp {
+				checkV1ImportIdentity(r, v1Src, v1Tgt, fs, recs, tfs)
+			}
 			for _, f := range tfs {
 				for _, s := range secrets {
 					r.Check(!bytes.Contains(f.data, s), "v1-secret-in-target-file", "import wrote key material in clear into "+string(f.name))
